@@ -5,7 +5,10 @@ package main
 // inside and after each call, value transfers, creates, failing terminators,
 // re-entrancy, and Aspects bound to a random subset of contracts.
 
-import "fmt"
+import (
+	"fmt"
+	"strings"
+)
 
 type treeOpts struct {
 	prop        string
@@ -27,6 +30,31 @@ func nameWord(s string) []Macro {
 	ms := []Macro{{K: "op", Op: "MSTORE", A: []string{"0x200", hxu(uint64(len(b)))}}}
 	ms = append(ms, storeBytes(0x220, b)...)
 	return ms
+}
+
+// purify removes every state-modifying macro (SSTORE, LOG, CREATE, value transfers).
+func purify(ms []Macro) []Macro {
+	var out []Macro
+	for _, m := range ms {
+		switch {
+		case m.K == "op" && (m.Op == "SSTORE" || strings.HasPrefix(m.Op, "LOG") || m.Op == "TSTORE"):
+			continue
+		case m.K == "create":
+			continue
+		case m.K == "call":
+			m.A = append([]string{}, m.A...)
+			if len(m.A) > 2 {
+				m.A[2] = "0x0"
+			}
+			if strings.HasPrefix(m.Flag, "s:") {
+				m.Flag = "m:0x1c0"
+			}
+		case m.K == "if" || m.K == "loop":
+			m.Body = purify(m.Body)
+		}
+		out = append(out, m)
+	}
+	return out
 }
 
 // shortString: a storage word holding a well-formed Solidity short string (1..31 bytes,
@@ -66,6 +94,7 @@ func genTreeScenario(seed uint64, o treeOpts) *Scenario {
 	sc.Accounts = append(sc.Accounts, Account{Addr: eoaA, Balance: "0xffffffffffffffffffff"}, Account{Addr: eoaB, Balance: "0x3e8"},
 		Account{Addr: codeless, Balance: "0x1"})
 	failing := r.Intn(n + 2) // index of a contract with a failing terminator (>= n: none)
+	forcePure := map[string]bool{}
 	for i := 0; i < n; i++ {
 		p := &Program{}
 		var pre, body, post []Macro
@@ -115,7 +144,7 @@ func genTreeScenario(seed uint64, o treeOpts) *Scenario {
 			reenter := false
 			switch x := r.Intn(12); {
 			case x == 0:
-				target = pick(r, []string{codeless, ghost, "0x4", "0x2", eoaB})
+				target = pick(r, []string{codeless, ghost, "0x4", "0x2", eoaB, "0x1", "0x9", "0x6", "0x8"})
 			case x == 1 && i > 0:
 				target = contractAddr(r.Intn(i + 1)) // back edge (re-entrancy), leaf behaviour forced by calldata
 				reenter = true
@@ -128,6 +157,9 @@ func genTreeScenario(seed uint64, o treeOpts) *Scenario {
 				}
 			}
 			kind := pick(r, []string{"CALL", "CALL", "CALL", "CALL", "DELEGATECALL", "STATICCALL", "CALLCODE"})
+			if kind == "STATICCALL" && !reenter && strings.HasPrefix(target, "0xc0de0000") && r.P(2, 3) {
+				forcePure[target] = true // the callee must be able to run (and call on) in static context
+			}
 			// calldata: first word zero => callee performs its own calls; non-zero => leaf
 			inSize := pick(r, []int{0, 0, 4, 32, 36, 68, 100})
 			first := "0x0"
@@ -216,6 +248,11 @@ func genTreeScenario(seed uint64, o treeOpts) *Scenario {
 			p.M = append(p.M, Macro{K: "if", A: []string{"CD:0x0"}, Body: body})
 		}
 		p.M = append(p.M, post...)
+		if forcePure[contractAddr(i)] || (i > 0 && r.P(1, 4)) {
+			// a read-only contract: survives being entered through STATICCALL, so that calls
+			// (and their join points) also happen below static frames
+			p.M = purify(p.M)
+		}
 		// terminator
 		switch {
 		case i == failing && i > 0:
